@@ -313,6 +313,7 @@ type SolveOpts struct {
 	Portfolio []string
 	Jobs     int
 	NoLead   bool
+	Kinds    map[string]bool // nil = all obligation kinds
 }
 
 // discharge runs the solver portfolio on every obligation of the results, in parallel.
@@ -343,6 +344,12 @@ func discharge(results []*FuncResult, opts SolveOpts) {
 			prelude = fr.Enc.prelude()
 		}()
 		for _, ob := range fr.Obs {
+			if opts.Kinds != nil && !ob.Cover && !opts.Kinds[ob.Kind] {
+				// this obligation belongs to another property's check
+				ob.Skipped = true
+				ob.Result = &SolveResult{Status: "skipped", Solver: "skipped"}
+				continue
+			}
 			if !ob.Cover && ob.Goal.S == "true" {
 				ob.Result = &SolveResult{Status: "unsat", Solver: "trivial"}
 				continue
